@@ -1480,8 +1480,8 @@ class SetItems(StackSliceOpcode):
         for key, value in zip(stack_slice[::2], stack_slice[1::2]):
             update_dict_keys.append(key)
             update_dict_values.append(value)
-        if isinstance(pydict, ast.Dict) and not pydict.keys:
-            # the dict is an empty literal, so fill it in place; the memo may already hold a
+        if isinstance(pydict, ast.Dict):
+            # the dict is a literal, so fill it in place; the memo may already hold a
             # reference to this very node (picklers memoize a dict before filling it)
             pydict.keys.extend(update_dict_keys)
             pydict.values.extend(update_dict_values)
@@ -1508,8 +1508,8 @@ class SetItem(Opcode):
         value = interpreter.stack.pop()
         key = interpreter.stack.pop()
         pydict = interpreter.stack.pop()
-        if isinstance(pydict, ast.Dict) and not pydict.keys:
-            # the dict is an empty literal, so fill it in place; the memo may already hold a
+        if isinstance(pydict, ast.Dict):
+            # the dict is a literal, so fill it in place; the memo may already hold a
             # reference to this very node (picklers memoize a dict before filling it)
             pydict.keys.append(key)
             pydict.values.append(value)
